@@ -89,32 +89,12 @@ def fieldLookup (t : GT) (name : Str) : Option (List Nat) :=
 /-- `zoo` scenarios where the property text demands something else than the code does: (scenario, demanded
     outcome, region) -/
 def zooSpec : List (String × String × String) :=
-  [("byval_struct_write", "!throw:TypeError", "struct_by_value_write_go_panic"),
-   ("nilptr_embedded_read", "undefined,false|go:true", "struct_nil_embedded_pointer_go_panic"),
-   ("nilptr_embedded_write", "!throw:TypeError", "struct_nil_embedded_pointer_go_panic"),
-   ("defined_int", "main.zMyInt:5", "defined_type_parameter_go_panic"),
-   ("defined_string", "main.zMyStr:amain.zMyStr:7", "defined_type_parameter_go_panic"),
-   ("defined_bool", "main.zMyBool:truemain.zMyBool:false", "defined_type_parameter_go_panic"),
-   ("defined_float", "main.zMyF:1.5main.zMyF:2", "defined_type_parameter_go_panic"),
-   ("defined_slice_elem", "[]main.zMyInt:[1 2]", "defined_type_parameter_go_panic"),
-   ("defined_key_read", "apundefinedtrue1,16", "defined_key_type_go_panic"),
-   ("defined_key_write", "bundefined|go:map[2:b]", "defined_key_type_go_panic"),
-   ("defined_key_param", "map[main.zSK]int:map[a:1]", "defined_key_type_go_panic"),
-   ("ptr_to_value_param", "{C:1 S:[1 2 3]}", "call_pointer_for_struct_value_zeroed"),
-   ("slice_field_push", "4:1,2,3,4|go:[1 2 3 4]", "slice_field_growth_lost"),
-   ("slice_field_setlen", "5:1,2,3,0,0|go:[1 2 3 0 0]", "slice_field_growth_lost"),
-   ("slice_field_regrow", "1,0,0|go:[1 0 0]", "slice_regrow_reveals_stale_elements"),
+  [("nilptr_embedded_write", "!throw:TypeError", "struct_write_dropped_expando"),
    ("shadowed_field", "outer,z|go:z,inner", "struct_lookup_depth_first_not_shallowest"),
    ("promoted_ptr_write", "q|go:0,0,q", "struct_write_dropped_expando"),
    ("unexported_embedded_write", "!throw:TypeError", "struct_write_dropped_expando"),
    ("dash_field_write", "4|go:0,0,ia", "struct_dash_tag_read_only"),
    ("keys_after_dropped_writes", "!throw:TypeError", "struct_write_dropped_expando"),
-   ("int_key_alias_hex", "undefined,false|go:map[0:5 16:1]", "map_key_non_canonical_alias"),
-   ("int_key_alias_underscore", "undefined|go:map[0:5 16:1]", "map_key_non_canonical_alias"),
-   ("int_key_alias_plus", "undefined,undefined|go:map[0:5 16:1]", "map_key_non_canonical_alias"),
-   ("int_key_alias_negzero", "undefined|go:map[0:5 16:1]", "map_key_non_canonical_alias"),
-   ("bool_key_alias", "undefined,undefined,undefined", "map_key_non_canonical_alias"),
-   ("int_key_delete_unconvertible", "true|go:map[0:5 16:1]", "map_delete_unconvertible_key_throws"),
    ("slice_unshift", "5:8,9,1,2,3|go:[8 9 1]", "slice_write_beyond_length_rejected"),
    ("slice_splice_insert", ":1,7,7,2,3|go:[1 7 7]", "slice_write_beyond_length_rejected")]
 
